@@ -17,6 +17,12 @@ use margined_perp::margined_engine::{ExecuteMsg as EngineExec, Side};
 /// victim alice holds a position on vamm0; `split`: 0 = attacker "ice" + vamm "<vamm0>al",
 /// 1 = attacker "<last char of vamm0>alice" + vamm "<vamm0 without its last char>"
 fn alias(native: bool, split: u8, opk: u8, victim_side: Side) -> impl Fn() {
+    alias_u(native, split, opk, victim_side, false)
+}
+
+/// `under_water`: the victim's position is deep under water (liquidatable) when the aliased call
+/// arrives
+fn alias_u(native: bool, split: u8, opk: u8, victim_side: Side, under_water: bool) -> impl Fn() {
     move || {
         let mut cfg = Cfg::base(native, if native { 6 } else { 9 });
         let d = cfg.d();
@@ -24,9 +30,16 @@ fn alias(native: bool, split: u8, opk: u8, victim_side: Side) -> impl Fn() {
         let mut r = Run::new(cfg, Mon::none());
         symrt::set_full(false);
         let lev = Uint128::new(2 * d);
-        let m = Uint128::new(60 * d);
-        let f = if native { Some(native_open_funds(&r.w, m, lev)) } else { None };
-        assert!(r.step(Op::Open { who: ALICE, side: victim_side.clone(), margin: m, lev, limit: Uint128::zero(), funds: f }).tx.ok);
+        let (m, vlev) = if under_water { (Uint128::new(25 * d), Uint128::new(10 * d)) } else { (Uint128::new(60 * d), lev) };
+        let f = if native { Some(native_open_funds(&r.w, m, vlev)) } else { None };
+        assert!(r.step(Op::Open { who: ALICE, side: victim_side.clone(), margin: m, lev: vlev, limit: Uint128::zero(), funds: f }).tx.ok);
+        if under_water {
+            r.w.next_block(15);
+            let mm = Uint128::new(45 * d);
+            let f = if native { Some(native_open_funds(&r.w, mm, vlev)) } else { None };
+            assert!(r.step(Op::Open { who: EVE, side: opp(&victim_side), margin: mm, lev: vlev, limit: Uint128::zero(), funds: f }).tx.ok);
+            r.w.next_block(1000);
+        }
         // bystanders
         for (who, side) in [(BOB, Side::Sell), (CAROL, Side::Buy)] {
             let mm = Uint128::new(5 * d);
@@ -178,6 +191,14 @@ pub fn scenarios(_seed: u64) -> Vec<Scenario> {
             for (opk, on) in ops.iter().enumerate() {
                 let tier = if split == 0 || opk == 0 { Tier::Quick } else { Tier::Thorough };
                 v.push(sc("C10", tier, &format!("c10.alias.{}.split{}.{}", on, split, cn), d, 100, 60, alias(native, split, opk as u8, if opk % 2 == 0 { Side::Buy } else { Side::Sell })));
+            }
+        }
+    }
+    for (native, cn) in [(false, "cw20"), (true, "native")] {
+        for split in 0..2u8 {
+            for (opk, on) in [(5usize, "liquidate"), (2, "close"), (1, "withdraw")] {
+                let tier = if split == 0 { Tier::Quick } else { Tier::Thorough };
+                v.push(sc("C10", tier, &format!("c10.alias.{}.split{}.{}.victim-under-water", on, split, cn), d, 100, 60, alias_u(native, split, opk as u8, Side::Buy, true)));
             }
         }
     }
